@@ -22,7 +22,7 @@ RULE = ('Expressions are generated as lists of operations over an independent tr
         'the nested block); re-encoding the parsed result reproduces the input bytes. Non-trivial: >= 3 operations of '
         'which one has a signed or >= 2-byte operand, or any nested-expression / block / typed-constant operation. '
         'Distinct by SHA-1 of (cell, encoded bytes).')
-N = {'quick': 4000, 'thorough': 200000}
+N = {'quick': 4000, 'thorough': 150000}
 ASSUMPTIONS = [
     'operation table vf/enc/c12_expr.py transcribes DWARF v5 table 7.9 and the GNU/WASM extension definitions correctly '
     '(opcode numbers cross-checked against LLVM Dwarf.def; operand widths refereed by readelf 2.40 and llvm-dwarfdump 14 '
